@@ -5,8 +5,8 @@ from props import merge_common as mc
 # quick tier: the fixed parameter slices q12_* of OpsMerge.tla (SliceOf), two TLC processes
 QUICK = [
     ("slices q12_switch", dict(Slices={"q12_switch"})),
-    ("slices q12_short q12_mapped q12_hot q12_dispose q12_excl q12_take",
-     dict(Slices={"q12_short", "q12_mapped", "q12_hot", "q12_dispose", "q12_excl", "q12_take"})),
+    ("slices q12_short q12_fb q12_mapped q12_hot q12_dispose q12_excl q12_take",
+     dict(Slices={"q12_short", "q12_fb", "q12_mapped", "q12_hot", "q12_dispose", "q12_excl", "q12_take"})),
 ]
 
 THOROUGH = [
